@@ -287,7 +287,9 @@ func RunParent(id, tier string) int {
 	}
 	defer os.RemoveAll(scratch)
 
-	os.RemoveAll(filepath.Join(VerifDir, "replays", id)) // witnesses of earlier runs are stale
+	if os.Getenv("VERIF_EVIDENCE_DIR") == "" {
+		os.RemoveAll(filepath.Join(VerifDir, "replays", id)) // witnesses of earlier runs are stale
+	}
 	st := &runStats{classes: map[string]int{}, obs: map[string]int{}}
 	var mu sync.Mutex
 	Parallel(len(batches), procWidth(), func(i int) {
@@ -635,8 +637,12 @@ func writeEvidence(p Prop, tier string, seed int64, st *runStats, distinct, fres
 		"violations": fresh,
 	}
 	b, _ := json.MarshalIndent(ev, "", " ")
-	os.MkdirAll(filepath.Join(VerifDir, "evidence"), 0755)
-	os.WriteFile(filepath.Join(VerifDir, "evidence", p.ID()+".json"), b, 0644)
+	dir := filepath.Join(VerifDir, "evidence")
+	if d := os.Getenv("VERIF_EVIDENCE_DIR"); d != "" {
+		dir = d // exploratory runs (sweeps) keep their evidence apart from the registered one
+	}
+	os.MkdirAll(dir, 0755)
+	os.WriteFile(filepath.Join(dir, p.ID()+".json"), b, 0644)
 }
 
 func dedupe(s []string) []string {
